@@ -221,7 +221,8 @@ func (gw *inclusiveGateway) NextAction(ctx context.Context, flow Flow) chan IAct
 		go gw.run(ctx, sender)
 	})
 
-	response := make(chan IAction)
+	// one reply per channel: buffered, so that the node loop never waits for a token that left on ctx.Done
+	response := make(chan IAction, 1)
 	gw.mch <- nextActionMessage{response: response, flow: flow}
 	return response
 }
